@@ -803,10 +803,18 @@ def explore_c16(tier, seed):
 
 def c16_loop_and_json(res, seed, tier):
     n = 6 if tier != "thorough" else 40
-    for i in range(n):
+    for i in range(n + 1):
         s = seed * 1000003 + 500 + i
         rng = random.Random(s)
-        sc = scen.gen_scenario(s, rng.choice(["shocked", "crash"]), T=rng.choice([6, 10]), max_occ=3)
+        if i == n:
+            # one long run (beyond the periodic equilibrium checks of loop(), every 182 temporal units): the loop must
+            # cover the whole horizon exactly as manual stepping does
+            # (event-free: the economy is at its initial state at every periodic check)
+            sc = scen.gen_scenario(s, "eventfree", T=800, m=1, n=2, k=1)
+            sc["model"]["dt"] = rng.choice([1, 1, 2])
+            sc["T"] = 800
+        else:
+            sc = scen.gen_scenario(s, rng.choice(["shocked", "crash"]), T=rng.choice([6, 10]), max_occ=3)
         if known.match_scenario("C16", sc):
             continue
         outdir = tempfile.mkdtemp(prefix="verif_c16j_")
@@ -821,7 +829,7 @@ def c16_loop_and_json(res, seed, tier):
             sc3 = copy.deepcopy(sc)
             sc3["sim"].update({"register_stocks": True})
             simM = scen.build_sim(sc3)
-            for _ in range(sc["T"]):
+            for _ in range(0, sc["T"], int(sc["model"]["dt"])):
                 try:
                     r_ = simM.next_step()
                 except Exception:
@@ -833,7 +841,11 @@ def c16_loop_and_json(res, seed, tier):
                 a = getattr(simL, r).to_numpy(dtype=float)
                 b = getattr(simM, r).to_numpy(dtype=float)
                 if not np.array_equal(a, b, equal_nan=True):
-                    viol(res, "C16", f"record {r}: loop() with all records saved to files differs from manual stepping with records in memory")
+                    viol(res, "C16", f"record {r}: loop() with all records saved to files differs from manual stepping with records in memory",
+                         case={"scenario": scen.summarize(sc)})
+            if int(simL.n_temporal_units_simulated) != int(simM.current_temporal_unit):
+                viol(res, "C16", f"loop() simulated {int(simL.n_temporal_units_simulated)} temporal units, manual stepping over the same horizon {int(simM.current_temporal_unit)}",
+                     case={"scenario": scen.summarize(sc)})
             jd = Path(outdir) / "jsons"
             try:
                 params = json.loads((jd / "simulated_params.json").read_text())
@@ -915,11 +927,15 @@ def explore_c17(tier, seed):
                 sc = scen.gen_scenario(s * 10 + j, rng.choice(["shocked", "eventfree", "shocked"]), T=rng.choice([6, 8]), max_occ=3)
             if known.match_scenario("C17", sc):
                 continue
-            sc["sim"]["save_records"] = rng.choice([[], ["production_realised"], ["production_realised", "overproduction", "final_demand_unmet"]])
+            sc["sim"]["save_records"] = rng.choice([[], ["production_realised"], ["production_realised", "overproduction", "final_demand_unmet"], "all"])
+            sc["sim"]["register_stocks"] = rng.random() < 0.4
             scs.append(sc)
         if len(scs) < 2:
             continue
         res["scenarios"] += 1
+        # class-level state of Simulation (the lists of possible records and their file specifications are shared by
+        # every instance): nothing a simulation does may change it
+        cls_before = {k: copy.deepcopy(v) for k, v in vars(Simulation).items() if isinstance(v, (list, dict, set))}
         # partial runs (fewer steps than the horizon): never-simulated rows are part of the results too
         part = []
         for _rep in range(2):
@@ -988,6 +1004,20 @@ def explore_c17(tier, seed):
                     break
         if len(res["samples"]) < 2:
             res["samples"].append({"history": hist[:30], "scenarios": [scen.summarize(sc) for sc in scs]})
+        # stocks record of the simulations that registered it
+        for j, sc in enumerate(scs):
+            if sims[j] is not None and sc["sim"].get("register_stocks"):
+                try:
+                    _ = sims[j].inputs_stocks
+                except Exception as e:
+                    viol(res, "C17", f"simulation {j} registered its stocks but cannot show them after other simulations were created: {type(e).__name__}: {str(e)[:120]}",
+                         case={"options": [sc_["sim"] for sc_ in scs]})
+        cls_after = {k: v for k, v in vars(Simulation).items() if isinstance(v, (list, dict, set))}
+        for k, v in cls_before.items():
+            if cls_after.get(k) != v:
+                viol(res, "C17", f"class-level attribute Simulation.{k} was changed by building / running simulations",
+                     case={"before": str(v)[:200], "after": str(cls_after.get(k))[:200], "options": [sc_["sim"] for sc_ in scs]})
+                setattr(Simulation, k, copy.deepcopy(v))        # restore so that the rest of the exploration is not polluted
         # inputs untouched + event reuse
         sc = scs[0]
         io = scen.build_table(sc["table"])
@@ -1005,6 +1035,7 @@ def explore_c17(tier, seed):
         model = build_model_with_caller_objects(sc["table"], cfg, io)
         ev_objs, ev_inputs = [], []
         for e in sc["events"]:
+            e["ctor"] = "series"          # the objects below are built with from_series: the fresh twins must be too
             if e["type"] != "arbitrary" and e["emf"] == sc["model"]["monetary_factor"]:
                 # express the event in another unit so that the conversion path is exercised
                 new_f = 1 if sc["model"]["monetary_factor"] != 1 else 10**3
